@@ -584,13 +584,15 @@ func CheckDuplicateProofs(proofs Proofs) bool {
 }
 
 func CheckDuplicateBlindedMessages(bms BlindedMessages) bool {
-	bmMap := make(map[BlindedMessage]bool)
+	// a blinded message is identified by its B_ (that is the key signatures are
+	// stored under), so the same B_ with a different amount or witness is a duplicate
+	bmMap := make(map[string]bool)
 
 	for _, bm := range bms {
-		if bmMap[bm] {
+		if bmMap[bm.B_] {
 			return true
 		} else {
-			bmMap[bm] = true
+			bmMap[bm.B_] = true
 		}
 	}
 
